@@ -98,6 +98,41 @@ func main() {
 		})
 		fmt.Fprintf(&b, "def resizeTakesLock : Bool := %v\n", resizeLocks)
 
+		// --- tokenbucket.go: does TryAcquireN read the clock and call AllowN inside one critical section?
+		const tbf = "pkg/ratelimiter/store/flowcontrol/tokenbucket.go"
+		f3 := g.ParseFile(tbf)
+		ta := lib.FuncDecl(f3, "globalTokenBucket", "TryAcquireN")
+		if ta == nil || ta.Body == nil {
+			lib.Fatalf("%s: globalTokenBucket.TryAcquireN not found", tbf)
+		}
+		serialized := false
+		if len(ta.Body.List) >= 3 {
+			if e, ok := ta.Body.List[0].(*ast.ExprStmt); ok {
+				if r, m, ok := selCall(e.X); ok && strings.HasPrefix(r, "f.") && m == "Lock" {
+					if d, ok := ta.Body.List[1].(*ast.DeferStmt); ok {
+						if r2, m2, ok := selCall(d.Call); ok && r2 == r && m2 == "Unlock" {
+							serialized = true
+						}
+					}
+				}
+			}
+		}
+		allowN := false
+		ast.Inspect(ta.Body, func(n ast.Node) bool {
+			if e, ok := n.(ast.Expr); ok {
+				if _, m, ok := selCall(e); ok && m == "AllowN" {
+					allowN = true
+				}
+			}
+			return true
+		})
+		if !allowN {
+			lib.Fatalf("%s: TryAcquireN no longer calls rate.Limiter.AllowN", tbf)
+		}
+		b.WriteString("/-- `globalTokenBucket.TryAcquireN` holds a mutex of its own across `time.Now()` and `AllowN`\n")
+		b.WriteString("    (then clock readings reach the limiter in order; otherwise concurrent callers can deliver stale ones) -/\n")
+		fmt.Fprintf(&b, "def tryAcquireSerialized : Bool := %v\n", serialized)
+
 		// --- ratelimter.go: the halving loop
 		const rl = "pkg/ratelimiter/limiter/ratelimter.go"
 		f2 := g.ParseFile(rl)
